@@ -134,7 +134,10 @@ Fixpoint equiv (fuel : nat) (F : list fact) (asz : Z -> Z) (a b : operand) : boo
       match da with Some (op, [q]) => (op =s "assign") && equiv n F asz q b | _ => false end
       || match db with Some (op, [q]) => (op =s "assign") && equiv n F asz a q | _ => false end
       || match da, db with
-         | Some (op, aa), Some (op', ab) => (op =s op') && list_eqb (equiv n F asz) aa ab
+         | Some (op, aa), Some (op', ab) =>
+             (op =s op')
+             && (list_eqb (equiv n F asz) aa ab
+                 || (is_in op COMM_OPS && match aa with [x; y] => list_eqb (equiv n F asz) [y; x] ab | _ => false end))
          | _, _ => false
          end
       || same_fixed (resolve RFUEL F asz a) (resolve RFUEL F asz b)
@@ -224,7 +227,14 @@ Definition facts_step (strict : bool) (F : list fact) (asz : Z -> Z) (i : inst) 
 Definition cell_known (F : list fact) (asz : Z -> Z) (s : sp) (p v : operand) : bool :=
   existsb (fun g => match g with FCell s' p' v' => sp_eqb s s' && eqv F asz p' p && eqv F asz v' v | _ => false end) F.
 Definition value_known (F : list fact) (asz : Z -> Z) (op : string) (args : list operand) (v : operand) : bool :=
-  existsb (fun g => match g with FEq w op' a' => (op' =s op) && list_eqb (eqv F asz) a' args && eqv F asz w v | _ => false end) F.
+  existsb (fun g => match g with
+                    | FEq w op' a' =>
+                        (op' =s op)
+                        && (list_eqb (eqv F asz) a' args
+                            || (is_in op COMM_OPS && match args with [x; y] => list_eqb (eqv F asz) a' [y; x] | _ => false end))
+                        && eqv F asz w v
+                    | _ => false
+                    end) F.
 Definition nz_known (F : list fact) (asz : Z -> Z) (c : operand) : bool :=
   existsb (fun g => match g with FNz c' => eqv F asz c' c | _ => false end) F.
 
